@@ -103,6 +103,15 @@ def _shape_programs() -> dict[str, dict[str, Any]]:
     add("two_symbols_cond_then_outer", lambda a, b: lax.cond(jnp.sum(a) > 0, lambda u, v: jnp.sum(u) + jnp.sum(v), lambda u, v: jnp.sum(u) - jnp.sum(v), a, b) + jnp.zeros((a.shape[0], b.shape[0]), a.dtype) + a[:, :1], [("B", 3), ("N", 3)])
     add("nested_cond_in_scan_then_broadcast", lambda x: jnp.broadcast_to(lax.scan(lambda c, r: (lax.cond(jnp.sum(r) > 0, lambda u: u + jnp.sum(r), lambda u: u - 1.0, c), jnp.sum(r)), jnp.zeros((), x.dtype), x.T)[0], (B0(x),)) + x[:, 0], [("B", 3)])
     add("function_scalar_then_broadcast", lambda x: jnp.broadcast_to(c04_scalar(x), (B0(x), 3)) + x, [("B", 3)])
+    # polynomial extents: powers and coefficients that print alike ((B, 2) is B**2 as a factor and 2*B as a term)
+    dimv = lambda x, e: jnp.zeros((2,), x.dtype) + x.sum() * 0.0 + e  # noqa: E731
+    add("dim_poly_square_plus_double", lambda x: dimv(x, x.shape[0] * x.shape[0] + 2 * x.shape[0]), [("B", 3)])
+    add("dim_poly_double_then_square", lambda x: x.reshape((x.shape[0] * 3,)) * (2 * x.shape[0]) + x.shape[0] * x.shape[0], [("B", 3)])
+    add("dim_poly_cube_plus_triple", lambda x: dimv(x, x.shape[0] ** 3 + 3 * x.shape[0] + 3), [("B", 3)])
+    add("dim_poly_two_symbols", lambda a, b: dimv(a, a.shape[0] * b.shape[0] + 2 * a.shape[0] + b.shape[0] * b.shape[0] + 2 * b.shape[0]) + b.sum() * 0.0, [("B", 3), ("N", 3)])
+    add("dim_poly_in_shape_and_value", lambda x: jnp.ones((x.shape[0] * x.shape[0] + 2 * x.shape[0],), x.dtype).sum() + dimv(x, 2 * x.shape[0]), [("B", 3)])
+    add("dim_poly_square_of_sum", lambda a, b: dimv(a, (a.shape[0] + b.shape[0]) ** 2 - 2 * (a.shape[0] + b.shape[0])) + b.sum() * 0.0, [("B", 3), ("N", 3)])
+    add("dim_poly_floordiv_of_square", lambda x: dimv(x, (x.shape[0] * x.shape[0]) // 2 + (2 * x.shape[0]) // 2 + (x.shape[0] * x.shape[0]) % 3), [("B", 3)])
     add("three_symbols", lambda a, b, c: a[:, None, None] * b[None, :, None] + c[None, None, :], [("B",), ("N",), ("M",)])
     add("reshape_pair_B4_4N", lambda a, b: (a.reshape(4, -1).sum(1) + b.reshape(-1, 4).sum(0)), [("B", 4), (4, "N")])
     return P
